@@ -1035,14 +1035,28 @@ class EventBus:
                 )
 
         # Execute handlers
+        interrupted: asyncio.CancelledError | None = None
         try:
             await self._execute_handlers(event, handlers=applicable_handlers, timeout=timeout)
+        except asyncio.CancelledError as e:
+            # The processing was interrupted: the handler that was processing this event inline (while it awaited
+            # another one) timed out, or the run loop was cancelled. Nobody will ever come back to this event, so the
+            # handlers that did not get to run are recorded as cancelled and the event is completed below like any
+            # other - otherwise it stays unfinished for ever and everything that waits for it hangs.
+            interrupted = e
+            for handler_id in applicable_handlers:
+                result = event.event_results.get(handler_id)
+                if result is not None and result.status == 'pending':
+                    result.update(
+                        error=asyncio.CancelledError(f'Cancelled pending handler: the processing of {event} by {self} was interrupted')
+                    )
         finally:
             # this bus is done with the event (also when the processing was interrupted by a parent handler's timeout)
             event._event_pending_bus_count = max(0, event._event_pending_bus_count - 1)  # pyright: ignore[reportPrivateUsage]
 
-        await self._default_log_handler(event)
-        await self._default_wal_handler(event)
+        if interrupted is None:
+            await self._default_log_handler(event)
+            await self._default_wal_handler(event)
 
         # Mark event as complete if all handlers are done
         event.event_mark_complete_if_all_handlers_completed()
@@ -1079,6 +1093,9 @@ class EventBus:
         # Clean up excess events to prevent memory leaks
         if self.max_history_size:
             self.cleanup_event_history()
+
+        if interrupted is not None:
+            raise interrupted
 
     def _get_applicable_handlers(self, event: 'BaseEvent[Any]') -> dict[str, EventHandler]:
         """Get all handlers that should process the given event, filtering out those that would create loops"""
